@@ -70,7 +70,7 @@ Proof. intros H. unfold parse_promql_func. rewrite H. reflexivity. Qed.
 Lemma ppf_absent s f args a0 : func_kind f = "absent" ->
   parse_promql_func s f args a0 =
   fold_left (fun s name => guarantee_label (include_label s [name]) [name])
-            (labels_from_selectors ["MatchEqual"] (s_selector s))
+            (absent_names (nth_error args 0))
             (clear_labels (set_fixed (set_always (set_dead_label (set_dead (set_returns s VVector) false) None) false) true)).
 Proof. intros H. unfold parse_promql_func. rewrite H. reflexivity. Qed.
 
@@ -194,48 +194,73 @@ Definition absent_step (acc : labelset * list string) (m : matcher) : labelset *
        then (ls_set b (m_name m) (m_value m), m_name m :: seen)
        else (ls_without b [m_name m], seen).
 
-Definition eqnames_step (names : list string) (lm : matcher) : list string :=
-  if String.eqb (m_name lm) metric_name then names
-  else if negb (mem_str (matchtype_name (m_type lm)) ["MatchEqual"]) then names
-  else append_to_slice names [m_name lm].
-
-Lemma eqnames_mono ms : forall acc l, In l acc -> In l (fold_left eqnames_step ms acc).
+(** a label of the engine's absent() result comes from an equality matcher with a non-empty value *)
+Lemma absent_fold_has ms : forall b seen l,
+  has (fst (fold_left absent_step ms (b, seen))) l = true ->
+  has b l = true \/
+  exists m, In m ms /\ m_name m = l /\ m_type m = MEq /\ m_value m <> "" /\ m_name m <> metric_name.
 Proof.
-  induction ms as [|m r IH]; intros acc l H; simpl; auto. apply IH. unfold eqnames_step.
-  destruct (String.eqb (m_name m) metric_name); auto.
-  destruct (negb _); auto. apply In_append_to. tauto.
-Qed.
-
-Lemma absent_fold_names ms : forall b seen acc,
-  (forall l, has b l = true -> In l acc) ->
-  forall l, has (fst (fold_left absent_step ms (b, seen))) l = true -> In l (fold_left eqnames_step ms acc).
-Proof.
-  induction ms as [|m r IH]; intros b seen acc Hb l Hl; cbn [fold_left] in *; [auto|].
+  induction ms as [|m r IH]; intros b seen l Hl; cbn [fold_left] in Hl; [left; exact Hl|].
   destruct (absent_step (b, seen) m) as [b' seen'] eqn:Est.
-  apply (IH b' seen' (eqnames_step acc m)); [|exact Hl].
-  intros l' Hl'. unfold absent_step in Est. unfold eqnames_step.
+  apply IH in Hl. destruct Hl as [Hl|[m' [H1 H2]]]; [|right; exists m'; simpl; tauto].
+  unfold absent_step in Est.
   destruct (String.eqb (m_name m) metric_name) eqn:En.
-  - inversion Est; subst. auto.
+  - inversion Est; subst. left. exact Hl.
   - destruct (matchtype_eqb (m_type m) MEq && negb (mem_str (m_name m) seen)) eqn:E; inversion Est; subst; clear Est.
     + apply andb_true_iff in E. destruct E as [E1 _].
       assert (Ht : m_type m = MEq) by (destruct (m_type m); simpl in E1; congruence).
-      rewrite Ht. cbn [matchtype_name mem_str String.eqb negb]. simpl (negb _).
-      apply In_append_to.
-      apply has_get in Hl'. rewrite get_set in Hl'. destruct (String.eqb l' (m_name m)) eqn:El.
-      * apply String.eqb_eq in El. subst. simpl. auto.
-      * left. apply Hb. apply has_get. exact Hl'.
-    + apply has_get in Hl'. rewrite get_without in Hl'. simpl in Hl'.
-      destruct (String.eqb l' (m_name m)); [congruence|].
-      assert (In l' acc) by (apply Hb; apply has_get; exact Hl').
-      destruct (negb (mem_str (matchtype_name (m_type m)) ["MatchEqual"])); [auto | apply In_append_to; tauto].
+      apply has_get in Hl. rewrite get_set in Hl. destruct (String.eqb l (m_name m)) eqn:El.
+      * apply String.eqb_eq in El. right. exists m. simpl. apply String.eqb_neq in En. repeat split; auto.
+      * left. apply has_get. exact Hl.
+    + apply has_get in Hl. rewrite get_without in Hl. simpl in Hl.
+      destruct (String.eqb l (m_name m)); [congruence|]. left. apply has_get. exact Hl.
 Qed.
 
-Lemma absent_labels_names ms l :
-  has (fst (fold_left absent_step ms ([], []))) l = true -> In l (labels_from_selectors ["MatchEqual"] (Some ms)).
+Lemma count_name_nodup ms : nodup_names ms = true -> forall m, In m ms -> count_name (m_name m) ms = 1%nat.
 Proof.
-  intros H. unfold labels_from_selectors.
-  apply (absent_fold_names ms [] [] [] ) in H; [exact H|].
-  intros l' Hl'. unfold has, get in Hl'. simpl in Hl'. discriminate.
+  unfold count_name. induction ms as [|x r IH]; intros Hn m Hin; [destruct Hin|].
+  cbn [nodup_names] in Hn. apply andb_true_iff in Hn. destruct Hn as [Hx Hr]. apply negb_true_iff in Hx.
+  assert (Hnone : forall y, In y r -> String.eqb (m_name y) (m_name x) = false).
+  { intros y Hy. destruct (String.eqb (m_name y) (m_name x)) eqn:E; auto.
+    assert (existsb (fun m' => String.eqb (m_name m') (m_name x)) r = true) by (apply existsb_exists; eauto). congruence. }
+  cbn [filter]. destruct Hin as [<-|Hin].
+  - rewrite String.eqb_refl. cbn [List.length]. f_equal.
+    assert (Hf : filter (fun m0 => String.eqb (m_name m0) (m_name x)) r = []).
+    { clear IH Hr Hx. induction r as [|y r' IHr]; [reflexivity|]. cbn [filter].
+      rewrite (Hnone y (or_introl eq_refl)). apply IHr. intros z Hz. apply Hnone. right. exact Hz. }
+    rewrite Hf. reflexivity.
+  - assert (E : String.eqb (m_name x) (m_name m) = false).
+    { rewrite String.eqb_sym. apply Hnone. exact Hin. }
+    rewrite E. apply IH; auto.
+Qed.
+
+Lemma absent_names_fold_mono ms0 ms : forall acc l,
+  In l acc -> In l (fold_left (fun names lm => if absent_skip ms0 lm then names else append_to_slice names [m_name lm]) ms acc).
+Proof.
+  induction ms as [|m r IH]; intros acc l H; cbn [fold_left]; auto. apply IH.
+  destruct (absent_skip ms0 m); auto. apply In_append_to. tauto.
+Qed.
+
+Lemma absent_names_fold_in ms0 ms : forall acc m,
+  In m ms -> absent_skip ms0 m = false ->
+  In (m_name m) (fold_left (fun names lm => if absent_skip ms0 lm then names else append_to_slice names [m_name lm]) ms acc).
+Proof.
+  induction ms as [|x r IH]; intros acc m Hin Hs; [destruct Hin|]. cbn [fold_left]. destruct Hin as [<-|Hin].
+  - rewrite Hs. apply absent_names_fold_mono. apply In_append_to. right. left. reflexivity.
+  - apply IH; auto.
+Qed.
+
+(** under [nodup_names], every label of the engine's absent() result is one absentLabels returns *)
+Lemma absent_labels_names ms l :
+  nodup_names ms = true ->
+  has (fst (fold_left absent_step ms ([], []))) l = true ->
+  In l (fold_left (fun names lm => if absent_skip ms lm then names else append_to_slice names [m_name lm]) ms []).
+Proof.
+  intros Hnd H. apply absent_fold_has in H. destruct H as [H|[m [Hin [Hn [Ht [Hv Hne]]]]]].
+  - unfold has, get in H. simpl in H. discriminate.
+  - subst l. apply absent_names_fold_in; [exact Hin|].
+    unfold absent_skip. rewrite Ht, (count_name_nodup ms Hnd m Hin).
+    apply String.eqb_neq in Hne. apply String.eqb_neq in Hv. rewrite Hne, Hv. reflexivity.
 Qed.
 
 Lemma sel_src_selector ms : s_selector (sel_src ms) = Some ms.
@@ -247,17 +272,21 @@ Proof.
   rewrite Hf. reflexivity.
 Qed.
 
-Lemma call_src_absent f args a0 es ms l :
-  func_kind f = "absent" -> s_selector es = Some ms -> nd es ->
+Definition sel_of_arg (a : expr) : option (list matcher) :=
+  match a with ESel ms => Some ms | EMatrix (ESel ms) => Some ms | _ => None end.
+
+Lemma call_src_absent f a a0 es ms l :
+  func_kind f = "absent" -> sel_of_arg a = Some ms -> nodup_names ms = true -> nd es ->
   has (fst (fold_left absent_step ms ([], []))) l = true ->
-  can_have_label (call_src f args a0 es) l = true.
+  can_have_label (call_src f [a] a0 es) l = true.
 Proof.
-  intros Hk Hs Hnd Hl. rewrite call_src_unfold, (ppf_absent _ _ _ _ Hk).
+  intros Hk Hs Hnn Hnd Hl. rewrite call_src_unfold, (ppf_absent _ _ _ _ Hk).
   apply fold_absent_can_have.
   - exact Hnd.
-  - left. cbn [s_selector clear_labels set_guaranteed set_included set_fixed set_returns pre_call set_call set_operation set_type
-                    set_always set_dead set_dead_label].
-    rewrite Hs. apply absent_labels_names. exact Hl.
+  - left. cbn [nth_error]. unfold absent_names.
+    assert (E : match a with ESel ms0 => Some ms0 | EMatrix (ESel ms0) => Some ms0 | _ => None end = Some ms).
+    { exact Hs. }
+    rewrite E. apply absent_labels_names; assumption.
 Qed.
 
 (** ** argument sources *)
